@@ -21,6 +21,7 @@ class Org(models.Model):
 class Owner(models.Model):
     name = models.CharField(max_length=50, null=True)
     age = models.IntegerField(null=True)
+    rank = models.IntegerField(default=0)
     org = models.ForeignKey(Org, null=True, on_delete=models.SET_NULL, related_name="owners")
 
     class Meta:
@@ -44,6 +45,7 @@ class Item(models.Model):
     b1 = models.BooleanField(null=True)
     t1 = models.DateTimeField(null=True)
     d1 = models.DateField(null=True)
+    k = models.IntegerField(default=0)
     owner = models.ForeignKey(Owner, null=True, on_delete=models.SET_NULL, related_name="items")
     tags = models.ManyToManyField(Tag, related_name="items")
 
